@@ -606,6 +606,15 @@ def hand_cases():
             _cls("HandD", ["s.in_ = InPort( Bits8 )", "s.a = HLeaf()", "s.a.in_ //= s.in_", "s.a.out //= s.a.in_"]), "SignalTypeError", ()))
   C.append(("port-rule:parent-drives-child-wire", HAND_HEAD + _cls("HLeaf", ["s.in_ = InPort( Bits8 )", "s.w = Wire( Bits8 )"]) +
             _cls("HandD", ["s.in_ = InPort( Bits8 )", "s.a = HLeaf()", "s.a.in_ //= s.in_", "s.a.w //= s.a.in_"]), "SignalTypeError", ()))
+  # two interfaces of which one has a member (or a longer list) the other lacks: refused whichever is written first
+  ifcs = ("class IA( Interface ):\n  def construct( s ):\n    s.x = InPort( Bits8 )\n    s.l = [ InPort( Bits8 ) for _ in range(2) ]\n\n"
+          "class IB( Interface ):\n  def construct( s ):\n    s.x = OutPort( Bits8 )\n    s.l = [ OutPort( Bits8 ) for _ in range(2) ]\n    s.extra = OutPort( Bits8 )\n\n"
+          "class IC( Interface ):\n  def construct( s ):\n    s.x = OutPort( Bits8 )\n    s.l = [ OutPort( Bits8 ) for _ in range(3) ]\n\n")
+  prod = lambda I: _cls("HProd", [f"s.o = {I}()"])
+  cons = _cls("HCons", ["s.i = IA()"])
+  for I, why in (("IB", "extra-member"), ("IC", "longer-list")):
+    for order, stmt in (("consumer-first", "connect( s.c.i, s.p.o )"), ("producer-first", "connect( s.p.o, s.c.i )")):
+      C.append((f"interface-mismatch:{why}:{order}", HAND_HEAD + ifcs + prod(I) + cons + _cls("HandD", ["s.p = HProd()", "s.c = HCons()", stmt]), "InvalidConnectionError", ()))
   # partly driven net sources
   add("partial-driver:disjoint-slice(control)", ["s.in_ = InPort( Bits4 )", "s.y = Wire( Bits8 )", "s.out = OutPort( Bits4 )", "s.y[0:4] //= s.in_", "s.out //= s.y[4:8]"], "NoWriterError")
   add("partial-driver:overlapping-slice", ["s.in_ = InPort( Bits4 )", "s.y = Wire( Bits8 )", "s.out = OutPort( Bits4 )", "s.y[0:4] //= s.in_", "s.out //= s.y[2:6]"], "NoWriterError")
